@@ -928,8 +928,9 @@ def dispatch_call(ex, fn, args, kw):
     if isinstance(selfobj, logging.Logger):
         return None
     try:
-        hashable = fn.__hash__ is not None
-    except Exception:
+        hash(fn)
+        hashable = True
+    except Exception:      # noqa
         hashable = False
     if hashable:
         m = FUNC_MODELS.get(fn)
@@ -1251,8 +1252,18 @@ def _s_same_bytes(ex, a, b):
     if isinstance(la, int) and isinstance(lb, int):
         r = bytes_eq(ex, a, b)
         return r if isinstance(r, bool) else mk_bool(r)
+    r = None
+    try:
+        r = bytes_eq(ex, a, b)
+    except Unsupported:
+        pass
+    if r is True:
+        return True
     if ex.assuming:
-        raise Unsupported("same_bytes over symbolic lengths inside an assumed clause")
+        # assumed (callee post-condition): the universally quantified statement itself
+        q = z3.Int(ex._name("q"))
+        body = iterm(a.elem_at(ex, q)) == iterm(b.elem_at(ex, q))
+        return mk_bool(z3.And(zt(la) == zt(lb), z3.ForAll([q], z3.Implies(z3.And(q >= 0, q < zt(la)), body))))
     j = z3.Int(ex._name("idx"))
     ex.add(z3.And(j >= 0))
     return mk_bool(z3.And(zt(la) == zt(lb),
